@@ -882,6 +882,11 @@ class Ns(Family):
                            + '</a:root>\n', prefix_dep=True))
         out.append(Doc('ns-default', _decl() + '<root xmlns="urn:n1"><node q="x:v" xmlns:x="urn:q">'
                        '<leaf xmlns="urn:n2">t</leaf><node xmlns="urn:n1"/></node></root>', prefix_dep=True))
+        # siblings that each declare the same prefix for their own QName values (the second declaration is no
+        # redeclaration of anything in scope: it must not be lost by a source kind that diffs namespace maps)
+        out.append(Doc('ns-sibling-same-prefix', _decl() + '<a:root xmlns:a="urn:n1"><a:node xmlns:p="urn:p" q="p:v"/>'
+                       '<a:node xmlns:p="urn:p" q="p:w"><a:qn>p:x</a:qn></a:node><a:node xmlns:p="urn:p2" q="p:v"/></a:root>',
+                       prefix_dep=True))
         out.append(Doc('ns-bad-prefix', _decl() + '<a:root xmlns:a="urn:n1"><a:node q="zz:v"/></a:root>',
                        'fault:lexical', True))
         out.append(Doc('ns-bad-scope', _decl() + '<a:root xmlns:a="urn:n1"><a:node><a:node xmlns:p="urn:p"/>'
